@@ -123,7 +123,9 @@ async fn one_case(line: &str, n: usize, tmp: &std::path::Path) -> String {
     // A regression may leave the parent waiting for ever (e.g. a stage run in the parent keeps the pipe
     // its successor reads from): give the context 8 s (2 s once three contexts have hung), then report it and go on with a new shell.
     static TIMEOUTS: std::sync::atomic::AtomicUsize = std::sync::atomic::AtomicUsize::new(0);
-    let limit = if TIMEOUTS.load(std::sync::atomic::Ordering::Relaxed) >= 3 { 2 } else { 8 };
+    // VH_C12_TIMEOUT=<seconds> fixes the limit (used for the retry of cases that timed out under load)
+    let fixed: Option<u64> = std::env::var("VH_C12_TIMEOUT").ok().and_then(|v| v.parse().ok());
+    let limit = fixed.unwrap_or(if TIMEOUTS.load(std::sync::atomic::Ordering::Relaxed) >= 3 { 2 } else { 8 });
     let rr = match tokio::time::timeout(std::time::Duration::from_secs(limit), run(&mut shell, ctx)).await {
         Ok(r) => r,
         Err(_) => {
